@@ -127,6 +127,13 @@ Proof.
   apply dt_leb_point in L. exists (x - y). split; [reflexivity|lia].
 Qed.
 
+(* the part of [Good] that the tour / usage / rotation bookkeeping needs (formations are separate) *)
+Record GoodI (nw : network) (s : schedule) : Prop := {
+  gi_tours : ToursOK nw s; gi_listing : ListingOK nw s; gi_usage : UsageOK nw s; gi_trans : TransOK nw s;
+  gi_exact : ToursExact nw s; gi_costs : CostsOK nw s }.
+Lemma Good_I nw s : Good nw s -> GoodI nw s.
+Proof. intros G. destruct G. constructor; assumption. Qed.
+
 Section A.
 Variable nw : network.
 Hypothesis NF : net_fine nw.
@@ -145,41 +152,41 @@ Notation dep := (node_is_depot nw).
 (** * schedule-level lookups under the listing invariant *)
 Section Look.
 Variable s : schedule.
-Hypothesis G : Good nw s.
+Hypothesis G : GoodI nw s.
 
 Lemma real_in_type v : In v (vehicles_iter_all nw s) -> exists ty, In ty (type_ids nw) /\ vget v (s_vehicles s) = Some ty.
 Proof.
   unfold vehicles_iter_all. intros H. apply in_flat_map in H. destruct H as (ty & Hty & Hv).
-  exists ty. split; [exact Hty|]. apply (lo_ids _ _ (g_listing _ _ G)). exact Hv.
+  exists ty. split; [exact Hty|]. apply (lo_ids _ _ (gi_listing _ _ G)). exact Hv.
 Qed.
 
 Lemma veh_has_tour v ty : vget v (s_vehicles s) = Some ty -> exists t, vget v (s_tours s) = Some t.
 Proof.
-  intros H. apply vget_in_keys in H. apply (lo_same_keys _ _ (g_listing _ _ G)) in H.
+  intros H. apply vget_in_keys in H. apply (lo_same_keys _ _ (gi_listing _ _ G)) in H.
   apply in_keys_iff in H. destruct (vget v (s_tours s)) as [t|]; [eauto|congruence].
 Qed.
 
 Lemma veh_type_in v ty : vget v (s_vehicles s) = Some ty -> In ty (type_ids nw).
 Proof.
-  intros H. apply (lo_ids _ _ (g_listing _ _ G)) in H. unfold vehicles_iter in H.
+  intros H. apply (lo_ids _ _ (gi_listing _ _ G)) in H. unfold vehicles_iter in H.
   destruct (zget ty (s_ids s)) as [l|] eqn:E; [|destruct H].
-  rewrite <- (lo_ids_keys _ _ (g_listing _ _ G)). eapply zget_in_keys. exact E.
+  rewrite <- (lo_ids_keys _ _ (gi_listing _ _ G)). eapply zget_in_keys. exact E.
 Qed.
 
 Lemma veh_real v ty : vget v (s_vehicles s) = Some ty -> vid_is_real v = true.
-Proof. intros H. apply (lo_real _ _ (g_listing _ _ G)). eapply vget_in_keys. exact H. Qed.
+Proof. intros H. apply (lo_real _ _ (gi_listing _ _ G)). eapply vget_in_keys. exact H. Qed.
 
 Lemma veh_not_dummy v ty : vget v (s_vehicles s) = Some ty -> vget v (s_dummies s) = None.
 Proof.
   intros H. destruct (vget v (s_dummies s)) as [t|] eqn:E; [|reflexivity].
-  apply vget_in_keys in E. apply (lo_dummy _ _ (g_listing _ _ G)) in E.
+  apply vget_in_keys in E. apply (lo_dummy _ _ (gi_listing _ _ G)) in E.
   rewrite (veh_real _ _ H) in E. discriminate.
 Qed.
 
 Lemma real_tour_facts v ty t : vget v (s_vehicles s) = Some ty -> vget v (s_tours s) = Some t ->
   t_dummy t = false /\ RV nw (t_nodes t) /\ forallb (fun n => compatible_with_vehicle_type nw n ty) (t_nodes t) = true.
 Proof.
-  intros Hv Ht. destruct (to_real _ _ (g_tours _ _ G) v t Ht) as (ty' & Hv' & R).
+  intros Hv Ht. destruct (to_real _ _ (gi_tours _ _ G) v t Ht) as (ty' & Hv' & R).
   assert (ty' = ty) by congruence. subst ty'. unfold real_tour_ok in R.
   rewrite !andb_true_iff in R. destruct R as (((_ & D) & V) & C).
   apply negb_true_iff in D. apply valid_tour_nodes_RV in V. auto.
@@ -190,19 +197,19 @@ Proof. intros _ Ht. unfold tour_of. rewrite Ht. reflexivity. Qed.
 
 Lemma dummy_listed d : In d (s_dummy_ids s) -> exists t, vget d (s_dummies s) = Some t /\ vget d (s_tours s) = None.
 Proof.
-  intros H. apply (lo_dids _ _ (g_listing _ _ G)) in H.
-  pose proof (lo_dummy _ _ (g_listing _ _ G) d H) as NR.
+  intros H. apply (lo_dids _ _ (gi_listing _ _ G)) in H.
+  pose proof (lo_dummy _ _ (gi_listing _ _ G) d H) as NR.
   apply in_keys_iff in H. destruct (vget d (s_dummies s)) as [t|] eqn:E; [|congruence].
   exists t. split; [reflexivity|]. destruct (vget d (s_tours s)) as [t'|] eqn:E'; [|reflexivity].
-  apply vget_in_keys in E'. apply (lo_same_keys _ _ (g_listing _ _ G)) in E'.
-  apply (lo_real _ _ (g_listing _ _ G)) in E'. congruence.
+  apply vget_in_keys in E'. apply (lo_same_keys _ _ (gi_listing _ _ G)) in E'.
+  apply (lo_real _ _ (gi_listing _ _ G)) in E'. congruence.
 Qed.
 
 Lemma dummy_tour_facts d t : vget d (s_dummies s) = Some t ->
   t_dummy t = true /\ t_nodes t <> [] /\ (forall n, In n (t_nodes t) -> is_depot (nd nw n) = false) /\
   chrono nw (t_nodes t).
 Proof.
-  intros H. pose proof (to_dummy _ _ (g_tours _ _ G) d t H) as R. unfold dummy_tour_ok in R.
+  intros H. pose proof (to_dummy _ _ (gi_tours _ _ G) d t H) as R. unfold dummy_tour_ok in R.
   rewrite !andb_true_iff in R. destruct R as ((((_ & D) & L) & ND) & W).
   split; [exact D|]. split.
   { intros E. rewrite E in L. discriminate. }
@@ -309,7 +316,7 @@ Qed.
 
 Lemma segments_ok s p : Good nw s -> In p (s_dummy_ids s ++ vehicles_iter_all nw s) -> exists sg, segments nw s p = Ok sg.
 Proof.
-  intros G H. apply in_app_or in H. destruct H as [H|H].
+  intros G0 H. pose proof (Good_I nw s G0) as G. apply in_app_or in H. destruct H as [H|H].
   - destruct (dummy_listed s G p H) as (t & Hd & Ht).
     destruct (dummy_tour_facts s G p t Hd) as (D & NE & ND & CH).
     apply (segments_total s p t).
@@ -326,10 +333,10 @@ Qed.
 
 Theorem candidates_total s : Good nw s -> exists cs, candidates nw s = Ok cs.
 Proof.
-  intros G. unfold candidates.
+  intros G0. pose proof (Good_I nw s G0) as G. unfold candidates.
   match goal with |- exists cs, bind (fold_left ?f ?l ?a) _ = _ =>
     destruct (fold_total f (fun _ => True) l) with (s := @nil cand) as (c2 & E2 & _); [|exact I|] end.
-  { intros acc p Hin _. cbn [bind]. destruct (segments_ok s p G Hin) as (sg & ->). cbn [bind]. eauto. }
+  { intros acc p Hin _. cbn [bind]. destruct (segments_ok s p G0 Hin) as (sg & ->). cbn [bind]. eauto. }
   rewrite E2. cbn [bind].
   match goal with |- exists cs, bind (fold_left ?f ?l ?a) _ = _ =>
     destruct (fold_total f (fun _ => True) l) with (s := @nil cand) as (c3 & E3 & _); [|exact I|] end.
@@ -599,6 +606,85 @@ Proof.
   destruct (t_ddist t) as [m|] eqn:Em.
   - rewrite A3. cbn [bind]. rewrite A4. cbn [bind]. eauto.
   - cbn [bind]. rewrite A4. cbn [bind]. eauto.
+Qed.
+
+(** ** replace_start_depot / replace_end_depot *)
+Lemma dist_sub_head a b : dnn b -> exists r, dist_sub (dist_add a b) a = Ok r.
+Proof.
+  destruct a as [x|], b as [y|]; cbn; eauto. intros Hy. destruct (Z.leb_spec x (x + y)); [eauto|lia].
+Qed.
+Lemma dist_sub_last a b : dnn a -> exists r, dist_sub (dist_add a b) b = Ok r.
+Proof.
+  destruct a as [x|], b as [y|]; cbn; eauto. intros Hx. destruct (Z.leb_spec y (x + y)); [eauto|lia].
+Qed.
+
+Lemma dh_rate_nn a b : 0 <= dur_sec_or (dead_head_time_between nw a b) (planning_sec nw) * c_dh P.
+Proof.
+  destruct rates_nn as (_ & _ & R3 & _). apply Z.mul_nonneg_nonneg; [apply dur_sec_nn, dh_time_nn|exact R3].
+Qed.
+Lemma dh_rate_le a b : dur_sec_or (dead_head_time_between nw a b) (planning_sec nw) * c_dh P <= dhi_cost nw a b.
+Proof.
+  unfold dhi_cost. fold P. destruct rates_nn as (_ & _ & _ & R4 & _). pose proof (idle_sec_nn a b).
+  assert (0 <= idle_sec nw a b * c_idle P) by (apply Z.mul_nonneg_nonneg; assumption). lia.
+Qed.
+
+Theorem replace_start_total t d : t_dummy t = false -> RV nw (t_nodes t) -> tour_exact nw t ->
+  is_start_depot (nd nw d) = true -> exists t', replace_start_depot nw t d = Ok t'.
+Proof.
+  intros Dm R Hex Hd. destruct (exact_proj nw t Hex) as (_ & _ & _ & Ed & Ec).
+  pose proof (RV_length nw _ R) as L3. unfold replace_start_depot. rewrite Dm, Hd. cbn [negb].
+  destruct (t_nodes t) as [|old [|fnd rest]] eqn:El; try (cbn in L3; lia).
+  rewrite (ddist_cons2 nw) in Ed. rewrite (costs_cons2 nw) in Ec.
+  assert (A1 : exists dd, match t_ddist t with
+                          | Dist m => do x <- dist_sub (Dist m) (dead_head_distance_between nw old fnd);
+                                      Ok (dist_add x (dead_head_distance_between nw d fnd))
+                          | DistInf => Ok (compute_ddist nw (d :: fnd :: rest)) end = Ok dd).
+  { destruct (t_ddist t) as [m|] eqn:Em; [|eauto]. rewrite Ed.
+    destruct (dist_sub_head (dead_head_distance_between nw old fnd) (compute_ddist nw (fnd :: rest))) as (x & ->);
+      [rewrite (ddist_DS nw); apply DS_nn|]. cbn [bind]. eauto. }
+  destruct A1 as (dd & A1).
+  match goal with |- exists t', bind ?X _ = _ => replace X with (Ok (A:=dist) dd) end.
+  cbn [bind]. fold P.
+  destruct (z_sub_cost_total (t_costs t) (dur_sec_or (dead_head_time_between nw old fnd) (planning_sec nw) * c_dh P))
+    as (c1 & -> & _).
+  { rewrite Ec. pose proof (sm_cost_nn old). pose proof (costs_nn (fnd :: rest)). pose proof (dh_rate_le old fnd). lia. }
+  cbn [bind]. eauto.
+Qed.
+
+Theorem replace_end_total t d : t_dummy t = false -> RV nw (t_nodes t) -> tour_exact nw t ->
+  is_end_depot (nd nw d) = true -> exists t', replace_end_depot nw t d = Ok t'.
+Proof.
+  intros Dm R Hex Hd. destruct (exact_proj nw t Hex) as (_ & _ & _ & Ed & Ec).
+  pose proof (RV_length nw _ R) as L3. unfold replace_end_depot. rewrite Dm, Hd. cbn [negb].
+  destruct (Nat.ltb_spec (length (t_nodes t)) 2); [lia|].
+  assert (exists l' old, t_nodes t = l' ++ [old] /\ l' <> []) as (l' & old & El & Hne).
+  { destruct (exists_last (l := t_nodes t)) as (l' & old & E).
+    - intros E; rewrite E in L3; cbn in L3; lia.
+    - exists l', old; split; auto. intros ->. rewrite E in L3. cbn in L3. lia. }
+  unfold last_node, nth_node, tlen. rewrite El in *. rewrite removelast_last.
+  rewrite app_length. cbn [length].
+  replace (length l' + 1 - 1)%nat with (length l') by lia.
+  replace (length l' + 1 - 2)%nat with (length l' - 1)%nat by lia.
+  rewrite nth_hd_of. cbn [hd]. rewrite nth_last_of by assumption.
+  rewrite (ddist_app nw), bridge_one, (DS_one nw) in Ed by assumption.
+  change (DS nw (windows [old])) with (Dist 0) in Ed. rewrite dist_add_0_r in Ed.
+  rewrite (costs_app nw), bridge_one, (CS_one nw) in Ec by assumption.
+  change (CS nw (windows [old])) with 0 in Ec.
+  assert (A1 : exists dd, match t_ddist t with
+                          | Dist m => do x <- dist_sub (Dist m) (dead_head_distance_between nw (last l' d0) old);
+                                      Ok (dist_add x (dead_head_distance_between nw (last l' d0) d))
+                          | DistInf => Ok (compute_ddist nw (l' ++ [d])) end = Ok dd).
+  { destruct (t_ddist t) as [m|] eqn:Em; [|eauto]. rewrite Ed.
+    destruct (dist_sub_last (DS nw (windows l')) (dead_head_distance_between nw (last l' d0) old)) as (x & ->);
+      [apply DS_nn|]. cbn [bind]. eauto. }
+  destruct A1 as (dd & A1).
+  match goal with |- exists t', bind ?X _ = _ => replace X with (Ok (A:=dist) dd) end.
+  cbn [bind]. fold P.
+  destruct (z_sub_cost_total (t_costs t) (dur_sec_or (dead_head_time_between nw (last l' d0) old) (planning_sec nw) * c_dh P))
+    as (c1 & -> & _).
+  { rewrite Ec. pose proof (SM_nn l'). pose proof (SM_nn [old]). pose proof (CS_nn (windows l')).
+    pose proof (dh_rate_le (last l' d0) old). lia. }
+  cbn [bind]. eauto.
 Qed.
 
 End B.
@@ -1027,25 +1113,26 @@ Qed.
 
 Section S.
 Variable s : schedule.
-Hypothesis G : Good nw s.
+Hypothesis G : GoodI nw s.
+Hypothesis GF : FormsOK nw s.
 
 Lemma vpart : VPart nw (s_vehicles s) (s_tours s) (s_ids s).
 Proof.
-  destruct (g_listing _ _ G). constructor; auto.
+  destruct (gi_listing _ _ G). constructor; auto.
   intros v. rewrite !vget_none_keys. rewrite (lo_same_keys v). tauto.
 Qed.
 
 Lemma nondepot_has_form n : is_depot (nd nw n) = false -> nget n (s_forms s) <> None.
 Proof.
-  intros D. apply in_keys_nget. apply (fo_keys _ _ (g_forms _ _ G)). apply nondepot_coverable. exact D.
+  intros D. apply in_keys_nget. apply (fo_keys _ _ GF). apply nondepot_coverable. exact D.
 Qed.
 
 Lemma tok : TOK nw (s_trans s) (tfn nw (s_tours s)) (s_ids s).
-Proof. apply TransOK_TOK. exact (g_trans _ _ G). Qed.
+Proof. apply TransOK_TOK. exact (gi_trans _ _ G). Qed.
 
 Lemma tour_cost_le v t : vget v (s_tours s) = Some t -> t_costs t <= s_costs s /\ 0 <= t_costs t.
 Proof.
-  intros H. destruct (g_costs _ _ G) as [N E]. destruct (g_exact _ _ G) as [EX _].
+  intros H. destruct (gi_costs _ _ G) as [N E]. destruct (gi_exact _ _ G) as [EX _].
   assert (NNall : forall k t', In (k, t') (s_tours s) -> 0 <= t_costs t').
   { intros k t' Hin. apply (exact_costs_nn nw NF NX). apply (EX k). apply in_vget; assumption. }
   pose proof (tsum_ge _ _ _ N NNall H) as L. fold (tsum (s_tours s)) in E.
@@ -1065,10 +1152,10 @@ Proof.
   destruct (real_tour_facts nw s G v ty t Hv Ht) as (D & R & _).
   split; [reflexivity|]. split; [eapply veh_type_in; eauto|]. split; [eapply veh_real; eauto|]. split; [exact Ht|].
   split; [eapply tour_of_real_eq; eauto|]. split; [unfold is_dummy; rewrite (veh_not_dummy nw s G v ty Hv); reflexivity|].
-  split; [exact D|]. split; [exact R|]. split; [apply (proj1 (g_exact _ _ G) v t Ht)|].
+  split; [exact D|]. split; [exact R|]. split; [apply (proj1 (gi_exact _ _ G) v t Ht)|].
   split.
-  - apply (uo_spawned _ _ (g_usage _ _ G)). exists t. auto.
-  - apply (uo_despawned _ _ (g_usage _ _ G)). exists t. auto.
+  - apply (uo_spawned _ _ (gi_usage _ _ G)). exists t. auto.
+  - apply (uo_despawned _ _ (gi_usage _ _ G)). exists t. auto.
 Qed.
 
 Lemma RV_TV t : t_dummy t = false -> RV nw (t_nodes t) -> TV nw t.
@@ -1165,8 +1252,752 @@ Qed.
 End S.
 End F.
 
+(** * improve_depots *)
+Lemma z_sum_map_le {A} (f g : A -> Z) l : (forall x, In x l -> f x <= g x) -> z_sum (map f l) <= z_sum (map g l).
+Proof.
+  induction l as [|a l IH]; intros H; [unfold z_sum; cbn; lia|]. cbn [map]. rewrite !z_sum_cons.
+  pose proof (H a (or_introl eq_refl)). assert (z_sum (map f l) <= z_sum (map g l)) by (apply IH; intros; apply H; now right). lia.
+Qed.
+Lemma z_sum_map_le1 (f g : Z -> Z) l x0 : NoDup l -> (forall x, In x l -> x <> x0 -> f x <= g x) -> f x0 <= g x0 + 1 ->
+  z_sum (map f l) <= z_sum (map g l) + 1.
+Proof.
+  intros N H H0. destruct (in_dec Z.eq_dec x0 l) as [Hin|Hin].
+  - induction l as [|a l IH]; [destruct Hin|]. cbn [map]. rewrite !z_sum_cons. inversion N; subst.
+    destruct (Z.eq_dec a x0) as [->|Ne].
+    + assert (z_sum (map f l) <= z_sum (map g l)).
+      { apply z_sum_map_le. intros x Hx. apply H; [right; exact Hx|]. intros ->. contradiction. }
+      lia.
+    + destruct Hin as [Hin|Hin]; [congruence|].
+      pose proof (H a (or_introl eq_refl) Ne).
+      assert (z_sum (map f l) <= z_sum (map g l) + 1) by (apply IH; auto; intros; apply H; auto; now right). lia.
+  - assert (z_sum (map f l) <= z_sum (map g l)); [|lia].
+    apply z_sum_map_le. intros x Hx. apply H; [exact Hx|]. intros ->. contradiction.
+Qed.
+
+Lemma set_del_len v (l : list vehicle_id) : (length (set_del v l) <= length l)%nat.
+Proof.
+  unfold set_del. induction l as [|a l IH]; cbn [filter length]; [lia|]. destruct (negb (vid_eqb a v)); cbn [length]; lia.
+Qed.
+Lemma set_add_len v (l : list vehicle_id) : (length (set_add v l) <= length l + 1)%nat.
+Proof. unfold set_add. destruct (memv v l); [lia|]. rewrite app_length. cbn. lia. Qed.
+Lemma set_del_len_in v (l : list vehicle_id) : NoDup l -> In v l -> (length (set_del v l) + 1 = length l)%nat.
+Proof.
+  induction l as [|a l IH]; intros N H; [destruct H|]. inversion N; subst. unfold set_del in *. cbn [filter].
+  destruct (vid_eqb a v) eqn:E; cbn [negb length].
+  - apply vid_eqb_eq in E. subst a. rewrite (filter_notin v l H2). lia.
+  - destruct H as [->|H]; [rewrite vid_eqb_refl in E; discriminate|]. specialize (IH H3 H). lia.
+Qed.
+
+Definition imp_step2 (nw : network) (s : schedule)
+  : res (list (vehicle_id * tour) * usage_t * Z) -> vehicle_id -> res (list (vehicle_id * tour) * usage_t * Z) :=
+  fun acc v =>
+    do (tours, u, costs) <- acc;
+    do t <- (match tour_of s v with Ok t => Ok t | _ => Panic end);
+    do ty <- (match vehicle_type_of s v with Ok ty => Ok ty | _ => Panic end);
+    do nt <- improve_depots_of_tour nw u t ty;
+    do c <- z_sub_cost (costs + t_costs nt) (t_costs t);
+    let u1 := usage_add_spawn u (get_depot_idx nw (first_node nt)) ty v in
+    let u2 := usage_add_despawn u1 (get_depot_idx nw (last_node nt)) ty v in
+    Ok (vset v nt tours, u2, c).
+
+Section H.
+Variable nw : network.
+Hypothesis NF : net_fine nw.
+Hypothesis NX : net_extra_b nw = true.
+Notation d0 := (SD 0).
+Let WFb := WF nw NF.
+Let DPb := DP nw NF.
+
+(** ** room in the depots, by counts *)
+Definition RoomN (k : Z) (u : usage_t) : Prop :=
+  forall ty, In ty (type_ids nw) ->
+    exists sd, In sd (nw_sdepots nw) /\ capacity_of nw (get_depot_idx nw sd) ty <> 0 /\
+      spawned_same_type u (get_depot_idx nw sd) ty + k <= capacity_of nw (get_depot_idx nw sd) ty /\
+      spawned_total nw u (get_depot_idx nw sd) + k <= total_capacity_of nw (get_depot_idx nw sd).
+Definition Cnt (U0 : usage_t) (k : Z) (u : usage_t) : Prop :=
+  (forall d ty, spawned_same_type u d ty <= spawned_same_type U0 d ty + k) /\
+  (forall d, spawned_total nw u d <= spawned_total nw U0 d + k).
+
+Lemma nsp_len u d ty : spawned_same_type u d ty = Z.of_nat (length (sp_of u d ty)).
+Proof. unfold spawned_same_type, sp_of, ent_of. destruct (uget (d, ty) u) as [[sp de]|]; reflexivity. Qed.
+
+Lemma spawnroom_roomn s : SpawnRoom nw s -> RoomN 1 (s_usage s).
+Proof.
+  intros H ty Hty. destruct (H ty d0 Hty) as (d & E). unfold find_best_start_depot in E. apply unwrap_opt_ok in E.
+  apply find_some in E. destruct E as [Hin C]. unfold start_depots_sorted_by_distance_to in Hin. apply sort_by_in in Hin.
+  exists d. split; [exact Hin|]. unfold can_depot_spawn in C.
+  destruct (Z.eqb_spec (capacity_of nw (get_depot_idx nw d) ty) 0); [discriminate|].
+  destruct (Z.leb_spec (capacity_of nw (get_depot_idx nw d) ty) (spawned_same_type (s_usage s) (get_depot_idx nw d) ty)); [discriminate|].
+  destruct (Z.leb_spec (total_capacity_of nw (get_depot_idx nw d)) (spawned_total nw (s_usage s) (get_depot_idx nw d))); [discriminate|].
+  repeat split; [assumption|lia|lia].
+Qed.
+
+Lemma room_find U0 K k u ty first : RoomN K U0 -> Cnt U0 k u -> k + 1 <= K -> In ty (type_ids nw) ->
+  exists d, find_best_start_depot nw u ty first = Ok d /\ In d (nw_sdepots nw).
+Proof.
+  intros R [C1 C2] L Hty. destruct (R ty Hty) as (sd & Hin & N0 & N1 & N2).
+  unfold find_best_start_depot, start_depots_sorted_by_distance_to.
+  match goal with |- context [find ?f ?l] => destruct (find f l) as [d|] eqn:E end.
+  - apply find_some in E. destruct E as [Hd _]. apply sort_by_in in Hd. exists d. split; [reflexivity|exact Hd].
+  - exfalso. pose proof (find_none _ _ E sd) as Q. rewrite sort_by_in in Q. specialize (Q Hin).
+    unfold can_depot_spawn in Q. specialize (C1 (get_depot_idx nw sd) ty). specialize (C2 (get_depot_idx nw sd)).
+    destruct (Z.eqb_spec (capacity_of nw (get_depot_idx nw sd) ty) 0); [contradiction|].
+    destruct (Z.leb_spec (capacity_of nw (get_depot_idx nw sd) ty) (spawned_same_type u (get_depot_idx nw sd) ty)); [lia|].
+    destruct (Z.leb_spec (total_capacity_of nw (get_depot_idx nw sd)) (spawned_total nw u (get_depot_idx nw sd))); [lia|].
+    discriminate.
+Qed.
+
+Lemma cnt_le U0 k u u' : Cnt U0 k u -> (forall d ty, (length (sp_of u' d ty) <= length (sp_of u d ty))%nat) -> Cnt U0 k u'.
+Proof.
+  intros [C1 C2] H.
+  assert (P : forall d ty, spawned_same_type u' d ty <= spawned_same_type u d ty).
+  { intros d ty. rewrite !nsp_len. specialize (H d ty). lia. }
+  split.
+  - intros d ty. specialize (P d ty). specialize (C1 d ty). lia.
+  - intros d. specialize (C2 d). unfold spawned_total in *.
+    assert (z_sum (map (fun ty => spawned_same_type u' d ty) (type_ids nw)) <=
+            z_sum (map (fun ty => spawned_same_type u d ty) (type_ids nw))) by (apply z_sum_map_le; intros; apply P). lia.
+Qed.
+
+Lemma cnt_add U0 k u u' dk tyk : Cnt U0 k u ->
+  (forall d ty, (length (sp_of u' d ty) <= length (sp_of u d ty) + (if pair_eqb (d, ty) (dk, tyk) then 1 else 0))%nat) ->
+  Cnt U0 (k + 1) u'.
+Proof.
+  intros [C1 C2] H.
+  assert (P : forall d ty, spawned_same_type u' d ty <= spawned_same_type u d ty + (if pair_eqb (d, ty) (dk, tyk) then 1 else 0)).
+  { intros d ty. rewrite !nsp_len. specialize (H d ty). destruct (pair_eqb (d, ty) (dk, tyk)); lia. }
+  split.
+  - intros d ty. specialize (P d ty). specialize (C1 d ty). destruct (pair_eqb (d, ty) (dk, tyk)); lia.
+  - intros d. specialize (C2 d). unfold spawned_total in *.
+    assert (z_sum (map (fun ty => spawned_same_type u' d ty) (type_ids nw)) <=
+            z_sum (map (fun ty => spawned_same_type u d ty) (type_ids nw)) + 1); [|lia].
+    apply (z_sum_map_le1 _ _ _ tyk); [apply type_ids_nodup| |].
+    + intros ty _ Ne. specialize (P d ty). destruct (pair_eqb (d, ty) (dk, tyk)) eqn:Q; [|lia].
+      apply pair_eqb_dec in Q. destruct Q. contradiction.
+    + specialize (P d tyk). destruct (pair_eqb (d, tyk) (dk, tyk)); lia.
+Qed.
+
+(** ** improve_depots_of_tour *)
+Lemma sdepots_kind d : In d (nw_sdepots nw) -> is_start_depot (nd nw d) = true.
+Proof.
+  destruct (NX_parts nw NX) as (_ & _ & H & _). unfold depots_listed_b in H. rewrite !andb_true_iff in H.
+  destruct H as [[H _] _]. rewrite forallb_forall in H. apply H.
+Qed.
+Lemma edepots_kind d : In d (nw_edepots nw) -> is_end_depot (nd nw d) = true.
+Proof.
+  destruct (NX_parts nw NX) as (_ & _ & H & _). unfold depots_listed_b in H. rewrite !andb_true_iff in H.
+  destruct H as [[_ H] _]. rewrite forallb_forall in H. apply H.
+Qed.
+Lemma best_end_depot n : exists e, find_best_end_depot nw n = Ok e /\ is_end_depot (nd nw e) = true.
+Proof.
+  destruct (NX_parts nw NX) as (_ & _ & H & _). unfold depots_listed_b in H. rewrite !andb_true_iff in H.
+  destruct H as [_ H]. unfold find_best_end_depot, end_depots_sorted_by_distance_from.
+  match goal with |- context [hd_error ?l] => destruct l as [|e r] eqn:E end.
+  - exfalso. apply (f_equal (@length node_id)) in E. rewrite sort_by_length in E. cbn in E. rewrite E in H. discriminate.
+  - exists e. split; [reflexivity|]. apply edepots_kind.
+    eapply sort_by_in. rewrite E. left. reflexivity.
+Qed.
+
+Lemma idt_total u t ty : t_dummy t = false -> RV nw (t_nodes t) -> tour_exact nw t ->
+  (forall first, exists d, find_best_start_depot nw u ty first = Ok d /\ In d (nw_sdepots nw)) ->
+  exists nt, improve_depots_of_tour nw u t ty = Ok nt /\ t_dummy nt = false /\ RV nw (t_nodes nt) /\ tour_exact nw nt.
+Proof.
+  intros D R EX HR. unfold improve_depots_of_tour.
+  pose proof (RV_length nw _ R) as L3.
+  assert (F : exists fnd, first_non_depot t = Some fnd).
+  { unfold first_non_depot, non_depots. rewrite D. destruct (t_nodes t) as [|a [|b [|c r]]]; cbn in L3; try lia.
+    cbn. eauto. }
+  destruct F as (fnd & ->). cbn [unwrap_opt bind].
+  destruct (HR fnd) as (nsd & -> & Hnsd). cbn [bind]. apply sdepots_kind in Hnsd.
+  unfold start_depot at 1. rewrite (RV_first nw t R). cbn [bind].
+  assert (T1 : exists t1, (if negb (nid_eqb nsd (first_node t))
+                           then match replace_start_depot nw t nsd with Ok x => Ok x | _ => Panic end else Ok t) = Ok t1 /\
+                          t_dummy t1 = false /\ RV nw (t_nodes t1) /\ tour_exact nw t1).
+  { destruct (negb (nid_eqb nsd (first_node t))); [|eauto].
+    destruct (replace_start_total nw NF NX t nsd D R EX Hnsd) as (t1 & E1). rewrite E1. exists t1. split; [reflexivity|].
+    destruct (replace_start_depot_valid nw t nsd t1 R E1) as (D1 & R1 & _). rewrite D in D1.
+    split; [exact D1|]. split; [exact R1|].
+    apply (replace_start_depot_exact nw t nsd t1 WFb EX (RV_first nw t R) E1). }
+  destruct T1 as (t1 & -> & D1 & R1 & EX1). cbn [bind].
+  assert (L : exists lnd, last_non_depot nw t1 = Some lnd).
+  { unfold last_non_depot. match goal with |- context [find ?f ?l] => destruct (find f l) as [x|] eqn:E end; [eauto|].
+    exfalso. destruct R1 as (_ & _ & _ & _ & x & Hx & Dx). pose proof (find_none _ _ E x) as Q.
+    rewrite <- in_rev in Q. specialize (Q Hx). cbn in Q. rewrite Dx in Q. discriminate. }
+  destruct L as (lnd & ->). cbn [unwrap_opt bind].
+  destruct (best_end_depot lnd) as (ned & -> & Hned). cbn [bind].
+  unfold end_depot at 1. rewrite (RV_last nw t1 R1). cbn [bind].
+  destruct (negb (nid_eqb ned (last_node t1))); [|eauto].
+  destruct (replace_end_total nw NF NX t1 ned D1 R1 EX1 Hned) as (t2 & E2). rewrite E2. exists t2. split; [reflexivity|].
+  destruct (replace_end_depot_valid nw t1 ned t2 R1 E2) as (D2 & R2 & _). rewrite D1 in D2.
+  split; [exact D2|]. split; [exact R2|].
+  apply (replace_end_depot_exact nw t1 ned t2 WFb EX1 (RV_last nw t1 R1) E2).
+Qed.
+Lemma RoomN_mono k k' u : k' <= k -> RoomN k u -> RoomN k' u.
+Proof.
+  intros L R ty Hty. destruct (R ty Hty) as (sd & A & B & C & D). exists sd. repeat split; auto; lia.
+Qed.
+Lemma RoomN_ext k u u' : (forall d ty, spawned_same_type u' d ty = spawned_same_type u d ty) -> RoomN k u -> RoomN k u'.
+Proof.
+  intros E R ty Hty. destruct (R ty Hty) as (sd & A & B & C & D). exists sd. split; [exact A|]. split; [exact B|].
+  rewrite E. split; [exact C|]. unfold spawned_total in *.
+  rewrite (map_ext (fun ty0 => spawned_same_type u' (get_depot_idx nw sd) ty0) (fun ty0 => spawned_same_type u (get_depot_idx nw sd) ty0)); [exact D|].
+  intros; apply E.
+Qed.
+End H.
+
+Lemma oc_sum_le : forall l (T : list (vehicle_id * tour)),
+  NoDup (map fst T) -> (forall k t, In (k, t) T -> 0 <= t_costs t) -> NoDup l ->
+  z_sum (map (fun x => match vget x T with Some t => t_costs t | None => 0 end) l) <= tsum T.
+Proof.
+  induction l as [|v l IH]; intros T N H NL.
+  - unfold z_sum at 1. cbn. apply tsum_nn. exact H.
+  - cbn [map]. rewrite z_sum_cons. inversion NL; subst.
+    destruct (vget v T) as [t|] eqn:E; [|specialize (IH T N H H3); lia].
+    pose proof (tsum_vdel v T t N E) as D.
+    assert (Q : z_sum (map (fun x => match vget x (vdel v T) with Some t => t_costs t | None => 0 end) l) <= tsum (vdel v T)).
+    { apply IH; [apply keys_vdel_nodup; exact N| |exact H3].
+      intros k t' Hin. unfold vdel in Hin. apply filter_In in Hin. eapply H. apply Hin. }
+    assert (R : map (fun x => match vget x (vdel v T) with Some t => t_costs t | None => 0 end) l =
+                map (fun x => match vget x T with Some t => t_costs t | None => 0 end) l).
+    { apply map_ext_in. intros x Hx. rewrite vget_vdel. destruct (vid_eqb x v) eqn:Q'; [|reflexivity].
+      apply vid_eqb_eq in Q'. subst. contradiction. }
+    rewrite R in Q. lia.
+Qed.
+
+Lemma inline_rm_spawn (u : usage_t) d ty v : In v (sp_of u d ty) ->
+  (match uget (d, ty) u with
+   | Some (sp, de) => if memv v sp then Ok (uset (d, ty) (set_del v sp, de) u) else Panic
+   | None => Panic end) = usage_remove_spawn u d ty v.
+Proof. unfold usage_remove_spawn, sp_of, ent_of. destruct (uget (d, ty) u) as [[sp de]|]; [reflexivity|intros []]. Qed.
+Lemma inline_rm_despawn (u : usage_t) d ty v : In v (de_of u d ty) ->
+  (match uget (d, ty) u with
+   | Some (sp, de) => if memv v de then Ok (uset (d, ty) (sp, set_del v de) u) else Panic
+   | None => Panic end) = usage_remove_despawn u d ty v.
+Proof. unfold usage_remove_despawn, de_of, ent_of. destruct (uget (d, ty) u) as [[sp de]|]; [reflexivity|intros []]. Qed.
+
+Section I.
+Variable nw : network.
+Hypothesis NF : net_fine nw.
+Hypothesis NX : net_extra_b nw = true.
+Variable s : schedule.
+Hypothesis G : GoodI nw s.
+Let WFb := WF nw NF.
+
+Definition oc (x : vehicle_id) : Z := match vget x (s_tours s) with Some t => t_costs t | None => 0 end.
+
+Lemma step1_total u v ty t : vget v (s_vehicles s) = Some ty -> vget v (s_tours s) = Some t -> RV nw (t_nodes t) ->
+  In v (sp_of u (get_depot_idx nw (first_node t)) ty) -> In v (de_of u (get_depot_idx nw (last_node t)) ty) ->
+  exists u2, imp_step1 nw s (Ok u) v = Ok u2 /\
+    (forall d' ty', sp_of u2 d' ty' = if pair_eqb (d', ty') (get_depot_idx nw (first_node t), ty)
+                                       then set_del v (sp_of u (get_depot_idx nw (first_node t)) ty) else sp_of u d' ty') /\
+    (forall d' ty', de_of u2 d' ty' = if pair_eqb (d', ty') (get_depot_idx nw (last_node t), ty)
+                                       then set_del v (de_of u (get_depot_idx nw (last_node t)) ty) else de_of u d' ty').
+Proof.
+  intros Hv Ht R Isp Ide. unfold imp_step1. cbn [bind]. unfold vehicle_type_of, tour_of. rewrite Hv, Ht. cbn [ok_or_err bind].
+  unfold start_depot, end_depot. rewrite (RV_first nw t R), (RV_last nw t R). cbn [bind].
+  rewrite (inline_rm_spawn u _ ty v Isp).
+  destruct (rm_spawn_total u _ ty v Isp) as (u1 & -> & D1 & S1). cbn [bind].
+  assert (Ide1 : In v (de_of u1 (get_depot_idx nw (last_node t)) ty)) by (rewrite D1; exact Ide).
+  rewrite (inline_rm_despawn u1 _ ty v Ide1).
+  destruct (rm_despawn_total u1 _ ty v Ide1) as (u2 & -> & S2 & D2). exists u2. split; [reflexivity|]. split.
+  - intros d' ty'. rewrite S2, S1. reflexivity.
+  - intros d' ty'. rewrite D2, !D1. reflexivity.
+Qed.
+
+Lemma fold1_total l : NoDup l -> forall u,
+  (forall v, In v l -> exists ty t, vget v (s_vehicles s) = Some ty /\ vget v (s_tours s) = Some t /\ RV nw (t_nodes t) /\
+      In v (sp_of u (get_depot_idx nw (first_node t)) ty) /\ In v (de_of u (get_depot_idx nw (last_node t)) ty)) ->
+  exists u', fold_left (imp_step1 nw s) l (Ok u) = Ok u' /\
+             forall d ty, (length (sp_of u' d ty) <= length (sp_of u d ty))%nat.
+Proof.
+  induction l as [|v l IH]; intros N u H; cbn [fold_left]; [exists u; split; [reflexivity|intros; lia]|].
+  inversion N; subst.
+  destruct (H v (or_introl eq_refl)) as (ty & t & Hv & Ht & R & Isp & Ide).
+  destruct (step1_total u v ty t Hv Ht R Isp Ide) as (u2 & -> & S2 & D2).
+  destruct (IH H3 u2) as (u' & E & L).
+  - intros x Hx. destruct (H x (or_intror Hx)) as (tyx & tx & Hvx & Htx & Rx & Ispx & Idex).
+    exists tyx, tx. split; [exact Hvx|]. split; [exact Htx|]. split; [exact Rx|]. split.
+    + rewrite S2. destruct (pair_eqb _ _) eqn:Q; [|exact Ispx]. apply pair_eqb_dec in Q. destruct Q as [Q1 Q2].
+      apply set_del_in. split; [rewrite <- Q1, <- Q2; exact Ispx|]. intros ->. contradiction.
+    + rewrite D2. destruct (pair_eqb _ _) eqn:Q; [|exact Idex]. apply pair_eqb_dec in Q. destruct Q as [Q1 Q2].
+      apply set_del_in. split; [rewrite <- Q1, <- Q2; exact Idex|]. intros ->. contradiction.
+  - exists u'. split; [exact E|]. intros d ty'. specialize (L d ty'). rewrite S2 in L.
+    destruct (pair_eqb _ _) eqn:Q; [|exact L]. apply pair_eqb_dec in Q. destruct Q as [-> ->].
+    pose proof (set_del_len v (sp_of u (get_depot_idx nw (first_node t)) ty)). lia.
+Qed.
+
+Section F2.
+Variable U0 : usage_t.
+Variable K : Z.
+Hypothesis RM : RoomN nw K U0.
+
+Lemma fold2_total l : NoDup l -> (forall v, In v l -> is_vehicle s v = true) -> forall tours u costs k,
+  Cnt nw U0 k u -> k + Z.of_nat (length l) <= K ->
+  (forall x, vget x tours = None <-> vget x (s_tours s) = None) ->
+  z_sum (map oc l) <= costs ->
+  exists tours' u' costs', fold_left (imp_step2 nw s) l (Ok (tours, u, costs)) = Ok (tours', u', costs') /\
+    (forall x, vget x tours' = None <-> vget x (s_tours s) = None) /\
+    (forall x, ~ In x l -> vget x tours' = vget x tours).
+Proof.
+  induction l as [|v l IH]; intros N HV tours u costs k C LK KE CO; cbn [fold_left].
+  { exists tours, u, costs. split; [reflexivity|]. split; [exact KE|reflexivity]. }
+  inversion N; subst. cbn [length] in LK. cbn [map] in CO. rewrite z_sum_cons in CO.
+  destruct (veh_facts nw s G v (HV v (or_introl eq_refl))) as (ty & t & Hv & Ity & Rv & Ht & Hto & ND & D & R & EX & _ & _).
+  unfold imp_step2 at 2. cbn [bind]. rewrite Hto. unfold vehicle_type_of. rewrite Hv. cbn [ok_or_err bind].
+  destruct (idt_total nw NF NX u t ty D R EX) as (nt & -> & Dn & Rn & EXn).
+  { intros first. apply (room_find nw U0 K k u ty first RM C); [lia|exact Ity]. }
+  cbn [bind]. unfold oc at 1 in CO. rewrite Ht in CO.
+  pose proof (exact_costs_nn nw NF NX nt EXn) as NNn.
+  destruct (z_sub_cost_total (costs + t_costs nt) (t_costs t)) as (c & -> & Ec).
+  { assert (0 <= z_sum (map oc l)); [|lia]. apply z_sum_map_nn. intros x _. unfold oc.
+    destruct (vget x (s_tours s)) as [tx|] eqn:Q; [|lia]. apply (tour_cost_le nw NF NX s G x tx Q). }
+  cbn [bind].
+  destruct (IH H2 (fun x Hx => HV x (or_intror Hx)) (vset v nt tours)
+              (usage_add_despawn (usage_add_spawn u (get_depot_idx nw (first_node nt)) ty v) (get_depot_idx nw (last_node nt)) ty v)
+              c (k + 1)) as (tours' & u' & costs' & E & KE' & FR).
+  - apply (cnt_add nw U0 k u _ (get_depot_idx nw (first_node nt)) ty C). intros d ty'. rewrite add_despawn_sp, add_spawn_sp.
+    destruct (pair_eqb (d, ty') (get_depot_idx nw (first_node nt), ty)) eqn:Q; [|lia].
+    apply pair_eqb_dec in Q. destruct Q as [-> ->]. apply set_add_len.
+  - lia.
+  - intros x. rewrite vget_vset. destruct (vid_eqb x v) eqn:Q; [|apply KE].
+    apply vid_eqb_eq in Q. subst. rewrite Ht. split; discriminate.
+  - lia.
+  - exists tours', u', costs'. split; [exact E|]. split; [exact KE'|].
+    intros x Hx. rewrite FR by (intros Q; apply Hx; right; exact Q). rewrite vget_vset.
+    destruct (vid_eqb x v) eqn:Q; [|reflexivity]. apply vid_eqb_eq in Q. subst. exfalso. apply Hx. left. reflexivity.
+Qed.
+End F2.
+
+Lemma cnt_refl U0 : Cnt nw U0 0 U0.
+Proof. split; intros; lia. Qed.
+
+Lemma real_keys v : vget v (s_vehicles s) <> None -> vid_is_real v = true.
+Proof.
+  intros H. apply (lo_real _ _ (gi_listing _ _ G)). apply in_keys_iff. exact H.
+Qed.
+
+Theorem improve_depots_total changed : NoDup changed -> (forall v, In v changed -> is_vehicle s v = true) ->
+  RoomN nw (Z.of_nat (length changed)) (s_usage s) ->
+  exists s', improve_depots nw s (Some changed) = Ok s' /\
+    s_vehicles s' = s_vehicles s /\ s_ids s' = s_ids s /\
+    VPart nw (s_vehicles s) (s_tours s') (s_ids s) /\
+    TOK nw (s_trans s') (tfn nw (s_tours s')) (s_ids s).
+Proof.
+  intros N HV RM. unfold improve_depots. cbv beta iota zeta.
+  match goal with |- exists s', bind (fold_left ?f ?l ?a) _ = _ /\ _ => change f with (imp_step1 nw s) end.
+  destruct (fold1_total changed N (s_usage s)) as (u0 & E0 & L0).
+  { intros v Hv. destruct (veh_facts nw s G v (HV v Hv)) as (ty & t & A1 & _ & _ & A2 & _ & _ & _ & A3 & _ & A4 & A5).
+    exists ty, t. auto. }
+  unfold usage_t in E0. rewrite E0. cbn [bind].
+  match goal with |- exists s', bind (fold_left ?f ?l ?a) _ = _ /\ _ => change f with (imp_step2 nw s) end.
+  destruct (fold2_total (s_usage s) (Z.of_nat (length changed)) RM changed N HV (s_tours s) u0 (s_costs s) 0)
+    as (tours' & u' & costs' & E2 & KE & FR).
+  - eapply cnt_le; [apply cnt_refl|exact L0].
+  - lia.
+  - intros x. reflexivity.
+  - destruct (gi_costs _ _ G) as [NK EC]. destruct (gi_exact _ _ G) as [EXA _].
+    pose proof (oc_sum_le changed (s_tours s) NK) as Q. fold (tsum (s_tours s)) in EC.
+    destruct (rates_nn nw NX) as (_ & _ & _ & _ & R5 & _).
+    assert (z_sum (map oc changed) <= tsum (s_tours s)); [|lia]. apply Q; [|exact N].
+    intros k t Hin. apply (exact_costs_nn nw NF NX). apply (EXA k). apply in_vget; assumption.
+  - unfold usage_t in E2. rewrite E2. cbn [bind]. pose proof (vpart nw s G) as VP.
+    assert (VP' : VPart nw (s_vehicles s) tours' (s_ids s)) by (eapply V_same_keys; [exact VP|exact KE]).
+    assert (ST : forall v ty ty', vget v (s_vehicles s) = Some ty -> vget v (s_vehicles s) = Some ty' -> ty = ty') by (intros; congruence).
+    assert (NDf : NoDup (filter vid_is_real changed)) by (apply NoDup_filter; exact N).
+    destruct (update_transitions_total nw s (s_vehicles s) tours' (s_ids s) VP VP' ST (s_trans s) (s_viol s) changed
+                (tok nw s G) NDf) as ([tr vi] & UT).
+    { intros v Hv _. left. apply HV. exact Hv. }
+    rewrite UT. cbn [bind]. eexists. split; [reflexivity|]. cbn [with_fields s_vehicles s_ids s_tours s_trans].
+    split; [reflexivity|]. split; [reflexivity|]. split; [exact VP'|].
+    eapply (update_transitions_T nw s (s_vehicles s) tours' (s_ids s) VP VP' ST); [| | |exact NDf|apply (tok nw s G)|exact UT].
+    + intros v _ Hn. split; [reflexivity|]. apply FR. exact Hn.
+    + apply real_keys.
+    + apply real_keys.
+Qed.
+
+(** ** improve_depot_and_recompute_transitions *)
+Lemma sort_by_Z_in (l : list Z) x : In x (sort_by Z.leb l) <-> In x l.
+Proof. apply sort_by_in. Qed.
+Lemma dedup_z_in l x : In x (dedup_z l) -> In x l.
+Proof.
+  unfold dedup_z. intros H. apply sort_by_Z_in.
+  induction (sort_by Z.leb l) as [|a r IH]; [destruct H|]. cbn [fold_right] in H.
+  destruct (fold_right _ [] r) as [|y r'] eqn:E.
+  - destruct H as [<-|[]]. left. reflexivity.
+  - destruct (a =? y) eqn:Q.
+    + right. apply IH. exact H.
+    + destruct H as [<-|H]; [left; reflexivity|right; apply IH; exact H].
+Qed.
+
+Theorem improve_and_recompute_total changed : NoDup changed -> (forall v, In v changed -> is_vehicle s v = true) ->
+  RoomN nw (Z.of_nat (length changed)) (s_usage s) ->
+  exists s', improve_and_recompute nw s changed = Ok s'.
+Proof.
+  intros N HV RM. unfold improve_and_recompute.
+  match goal with |- exists s', bind (fold_left ?f ?l ?a) _ = _ =>
+    destruct (fold_total f (fun tys => forall ty, In ty tys -> In ty (type_ids nw)) l) with (s := @nil Z) as (tys & -> & Htys) end.
+  { intros acc v Hv Q. cbn [bind]. destruct (veh_facts nw s G v (HV v Hv)) as (ty & t & Hty & Ity & _).
+    unfold vehicle_type_of. rewrite Hty. cbn [ok_or_err bind]. eexists. split; [reflexivity|].
+    intros ty' Hin. apply in_app_or in Hin. destruct Hin as [Hin|[<-|[]]]; [apply Q; exact Hin|exact Ity]. }
+  { intros ty []. }
+  cbn [bind]. destruct (improve_depots_total changed N HV RM) as (s1 & -> & EV & EI & VP1 & T1). cbn [bind].
+  match goal with |- exists s', bind (fold_left ?f ?l ?a) _ = _ =>
+    destruct (fold_total f (fun pos => forall ty, In ty pos -> In ty (type_ids nw)) l) with (s := @nil Z) as (pos & -> & Hpos) end.
+  { intros acc ty Hty Q. cbn [bind]. destruct (T1 ty (Htys ty Hty)) as (tr & -> & _). cbn [unwrap_opt bind].
+    eexists. split; [reflexivity|]. destruct (0 <? tr_viol tr); [|exact Q].
+    intros ty' Hin. apply in_app_or in Hin. destruct Hin as [Hin|[<-|[]]]; [apply Q; exact Hin|apply Htys; exact Hty]. }
+  { intros ty []. }
+  cbn [bind]. unfold recompute_transitions_for.
+  destruct (recompute_transitions_total nw (s_trans s1) (s_viol s1) (s_ids s1) (s_tours s1) (dedup_z pos)) as ([tr vi] & ->).
+  - intros ty Hty. apply dedup_z_in in Hty. apply Hpos in Hty. rewrite EI.
+    destruct (zget ty (s_ids s)) as [l|] eqn:E.
+    + exists l. split; [reflexivity|]. intros v Hv Q. apply (v_same _ _ _ _ VP1) in Q.
+      assert (In v (SchedListFacts.iter (s_ids s) ty)) by (unfold SchedListFacts.iter; rewrite E; exact Hv).
+      apply (v_ids _ _ _ _ VP1) in H. congruence.
+    + exfalso. rewrite <- (v_keys _ _ _ _ VP1) in Hty. apply in_map_iff in Hty. destruct Hty as ([k l] & <- & Hin).
+      cbn [fst] in E. clear - E Hin. induction (s_ids s) as [|[k' l'] r IH]; [destruct Hin|].
+      rewrite zget_cons in E. destruct (k =? k') eqn:Q; [discriminate|]. destruct Hin as [Hin|Hin]; [|auto].
+      inversion Hin; subst. rewrite Z.eqb_refl in Q. discriminate.
+  - intros ty Hty. apply dedup_z_in in Hty. apply Hpos in Hty. destruct (T1 ty Hty) as (tr & -> & _). discriminate.
+  - cbn [bind]. eauto.
+Qed.
+End I.
+
+(** * add_path_to_vehicle_tour with a one-node path, and hitch-hiking *)
+Section J.
+Variable nw : network.
+Hypothesis NF : net_fine nw.
+Hypothesis NX : net_extra_b nw = true.
+Hypothesis DF : dists_finite_b nw = true.
+Hypothesis DH : dh_dists_finite_b nw = true.
+Notation d0 := (SD 0).
+Let WFb := WF nw NF.
+Let DPb := DP nw NF.
+
+Lemma coverable_nondepot n : In n (coverable_nodes nw) -> is_depot (nd nw n) = false.
+Proof.
+  unfold coverable_nodes, all_service_nodes. intros H. apply in_app_or in H. destruct H as [H|H].
+  - apply filter_In in H. destruct H as [_ H]. destruct (nd nw n); cbn in *; congruence.
+  - apply (proj1 (proj2 NF)) in H. destruct (nd nw n); cbn in *; congruence.
+Qed.
+
+Lemma single_valid_path n : is_depot (nd nw n) = false -> valid_path nw [n].
+Proof.
+  intros D. split; [discriminate|]. split; [intros a b []|]. cbn. unfold node_is_depot. rewrite D. reflexivity.
+Qed.
+
+Section S.
+Variable s : schedule.
+Hypothesis G : GoodI nw s.
+Hypothesis GF : FormsOK nw s.
+
+Lemma add_path_single_nc v n : is_vehicle s v = true -> is_depot (nd nw n) = false ->
+  (exists r, add_path_to_vehicle_tour nw s v [n] = Ok r) \/ add_path_to_vehicle_tour nw s v [n] = Err.
+Proof.
+  intros IV Dn.
+  destruct (veh_facts nw s G v IV) as (ty & t & Hv & Ity & Rv & Ht & Hto & ND & D & R & EX & Isp & Ide).
+  unfold add_path_to_vehicle_tour.
+  match goal with |- (exists r, (if ?c then _ else _) = _) \/ _ => destruct c; [right; reflexivity|] end.
+  rewrite Dn. cbn [bind]. rewrite Hv. cbn [unwrap_opt bind].
+  destruct (utf_tour_total nw NX s GF (s_forms s) (s_unserved s) None (Some (v, ty)) [n]) as [(fm1 & uns1 & -> & K1)| ->];
+    [auto| |right; reflexivity]. cbn [bind]. rewrite Ht. cbn [unwrap_opt bind].
+  pose proof R as (NE & C & _).
+  destruct (insert_path_total nw NF NX t [n] NE (connected_chrono nw WFb DPb _ C) (single_valid_path n Dn) EX)
+    as ([nt removed] & E). rewrite E. cbn [bind].
+  destruct (insert_path_valid nw WFb DPb t [n] nt removed (RV_TV nw t D R) (single_valid_path n Dn) E) as (Dn' & TVn & _).
+  assert (Rn : RV nw (t_nodes nt)) by (unfold TV in TVn; rewrite Dn', D in TVn; exact TVn).
+  pose proof (insert_path_exact nw t [n] nt removed WFb DF EX E) as EXn.
+  assert (U2 : (exists fu, (match removed with
+                            | Some rp => update_train_formation nw s fm1 uns1 (Some v) None rp
+                            | None => Ok (fm1, uns1) end) = Ok fu) \/
+               (match removed with
+                | Some rp => update_train_formation nw s fm1 uns1 (Some v) None rp
+                | None => Ok (fm1, uns1) end) = Err).
+  { destruct removed as [rp|]; [|left; eauto].
+    destruct (utf_tour_total nw NX s GF fm1 uns1 (Some v) None rp K1) as [(fm2 & uns2 & -> & _)| ->]; [left; eauto|right; reflexivity]. }
+  destruct U2 as [([fm2 uns2] & ->)| ->]; [|right; reflexivity]. cbn [bind].
+  destruct (z_sub_cost_total (s_costs s + t_costs nt) (t_costs t)) as (c & -> & _).
+  { pose proof (tour_cost_le nw NF NX s G v t Ht). pose proof (exact_costs_nn nw NF NX nt EXn). lia. }
+  cbn [bind].
+  assert (UD : exists u', update_depot_usage nw s (s_usage s) (s_vehicles s) (vset v nt (s_tours s)) v = Ok u').
+  { unfold update_depot_usage. rewrite Hv, vget_vset, vid_eqb_refl.
+    destruct (udu_nd_total nw s (s_usage s) v ty (Some nt)) as (u' & ->); [| |eauto].
+    - intros t' Q. injection Q as <-. split; [apply RV_first|apply RV_last]; exact Rn.
+    - intros _. exists t. repeat split; auto; [apply RV_first|apply RV_last]; exact R. }
+  destruct UD as (u' & ->). cbn [bind].
+  pose proof (vpart nw s G) as VP.
+  destruct (update_transitions_total nw s (s_vehicles s) (vset v nt (s_tours s)) (s_ids s) VP
+              (V_tours_vset_old nw _ _ _ v nt t VP Ht) (fun x a b H1 H2 => eq_trans (eq_sym (f_equal (fun o => match o with Some z => z | None => a end) H1)) (f_equal (fun o => match o with Some z => z | None => a end) H2))
+              (s_trans s) (s_viol s) [v] (tok nw s G) (nodup_filter_one v))
+    as ([tr vi] & ->).
+  { intros x [<-|[]] _. left. exact IV. }
+  cbn [bind]. left. eauto.
+Qed.
+Lemma usage_US : UsageOK nw s -> US nw s.
+Proof.
+  intros [K N S D]. constructor.
+  - exact K.
+  - exact N.
+  - intros d ty x. change (sp_of (s_usage s) d ty) with (fst (usage_at s d ty)). rewrite S.
+    unfold starts_at, stG. cbn [In]. tauto.
+  - intros d ty x. change (de_of (s_usage s) d ty) with (snd (usage_at s d ty)). rewrite D.
+    unfold ends_at, stG. cbn [In]. tauto.
+Qed.
+
+Lemma NoDup_same_len {A} (l1 l2 : list A) : NoDup l1 -> NoDup l2 -> (forall x, In x l1 <-> In x l2) -> length l1 = length l2.
+Proof. intros N1 N2 H. apply Permutation_length. apply NoDup_Permutation; assumption. Qed.
+
+Lemma add_path_single_post v n s1 c : is_depot (nd nw n) = false ->
+  add_path_to_vehicle_tour nw s v [n] = Ok (s1, c) ->
+  GoodI nw s1 /\ is_vehicle s1 v = true /\
+  (forall d ty, spawned_same_type (s_usage s1) d ty = spawned_same_type (s_usage s) d ty).
+Proof.
+  intros Dn H. pose proof H as H0. unfold add_path_to_vehicle_tour in H.
+  match type of H with (if ?b then _ else _) = _ => destruct b eqn:CK; [discriminate|] end.
+  rewrite Dn in H. cbn [bind] in H.
+  mon H. monp H. mon H. monp H. monp H. mon H. mon H. monp H. inversion H; subst s1 c; clear H.
+  apply unwrap_opt_ok in E, E1. rename a into ty. rename a0 into t0. rename t into nt.
+  assert (IV : is_vehicle s v = true) by (unfold is_vehicle; rewrite E; reflexivity).
+  destruct (veh_facts nw s G v IV) as (ty' & t' & Hv & Ity & Rv & Ht & Hto & ND & D & R & EX & Isp & Ide).
+  assert (ty' = ty) by congruence. assert (t' = t0) by congruence. subst ty' t'.
+  destruct (insert_path_valid nw WFb DPb t0 [n] nt o (RV_TV nw t0 D R) (single_valid_path n Dn) E2) as (Dn' & TVn & IN & _).
+  assert (Rn : RV nw (t_nodes nt)) by (unfold TV in TVn; rewrite Dn', D in TVn; exact TVn).
+  assert (CKn : compatible_with_vehicle_type nw n ty = true).
+  { unfold vehicle_type_of in CK. rewrite E in CK. cbn [ok_or_err forallb] in CK. apply negb_false_iff in CK.
+    rewrite andb_true_r in CK. exact CK. }
+  assert (FN : first_node nt = first_node t0).
+  { pose proof (RV_first nw nt Rn) as S1. pose proof Rn as (NEn & _).
+    assert (Hin : In (first_node nt) (t_nodes nt)).
+    { unfold first_node, nth_node. apply nth_In. destruct (t_nodes nt); [congruence|cbn; lia]. }
+    destruct (IN _ Hin) as [Hin0|[Qn|[]]].
+    - pose proof R as (NE0 & C0 & _). unfold first_node at 2. unfold nth_node.
+      destruct (t_nodes t0) as [|f rest] eqn:El; [congruence|]. cbn [nth].
+      destruct Hin0 as [<-|Hr]; [reflexivity|]. pose proof (conn_tl_no_sdep nw rest f _ C0 Hr) as Q.
+      unfold sdep in Q. rewrite S1 in Q. discriminate.
+    - rewrite <- Qn in S1. unfold is_depot in Dn. rewrite S1 in Dn. discriminate. }
+  set (s1 := with_fields (s_vehicles s) (vset v nt (s_tours s)) l1 l0 a2 (s_dummies s) (s_counter s) (s_ids s)
+                (s_dummy_ids s) p0 z a1) in *.
+  assert (KT : keys (s_tours s1) = keys (s_tours s)).
+  { unfold keys, s1. cbn [with_fields s_tours]. apply (keys_vset_old v nt _ t0 Ht). }
+  assert (GL : ListingOK nw s1).
+  { destruct (gi_listing _ _ G) as [L1 L2 L3 L4 L5 L6 L7 L8 L9 L10 L11].
+    constructor; try rewrite KT; auto. }
+  assert (GT : ToursOK nw s1).
+  { constructor.
+    - intros x tx Hx. unfold s1 in Hx. cbn [with_fields s_tours] in Hx. rewrite vget_vset in Hx.
+      destruct (vid_eqb x v) eqn:Q.
+      + apply vid_eqb_eq in Q. subst x. injection Hx as <-. exists ty. split; [exact Hv|].
+        unfold real_tour_ok. rewrite Rv, Dn', D. cbn [negb andb]. rewrite (proj2 (valid_tour_nodes_RV nw _) Rn). cbn [andb].
+        apply forallb_forall. intros m Hm. destruct (IN m Hm) as [Hm0|[<-|[]]]; [|exact CKn].
+        destruct (real_tour_facts nw s G v ty t0 Hv Ht) as (_ & _ & CP). rewrite forallb_forall in CP. apply CP. exact Hm0.
+      + apply (to_real _ _ (gi_tours _ _ G) x tx Hx).
+    - apply (to_dummy _ _ (gi_tours _ _ G)). }
+  assert (GE : ToursExact nw s1).
+  { apply EIs_ToursExact. apply (add_path_E nw WFb DF s v [n] s1 o); [apply EIs_ToursExact; exact (gi_exact _ _ G)|exact H0]. }
+  assert (GU : UsageOK nw s1).
+  { apply US_usage. apply (add_path_us nw s v [n] s1 o); [apply usage_US; exact (gi_usage _ _ G)|exact H0]. }
+  pose proof (vpart nw s G) as VP.
+  assert (VP' : VPart nw (s_vehicles s) (vset v nt (s_tours s)) (s_ids s)) by (eapply V_tours_vset_old; eauto).
+  assert (GTr : TransOK nw s1).
+  { apply TransOK_TOK. unfold s1. cbn [with_fields s_trans s_tours s_ids].
+    eapply (update_transitions_T nw s (s_vehicles s) (vset v nt (s_tours s)) (s_ids s) VP VP');
+      [| | | |apply nodup_filter_one|apply (tok nw s G)|exact E6].
+    - intros; congruence.
+    - intros x _ Hx. split; [reflexivity|]. rewrite vget_vset. destruct (vid_eqb x v) eqn:Q; [|reflexivity].
+      apply vid_eqb_eq in Q. subst. exfalso. apply Hx. left. reflexivity.
+    - apply (real_keys nw s G).
+    - apply (real_keys nw s G). }
+  assert (GC : CostsOK nw s1).
+  { destruct (gi_costs _ _ G) as [NK EC]. split.
+    - change (map fst (s_tours s1)) with (keys (s_tours s1)). rewrite KT. exact NK.
+    - unfold s1. cbn [with_fields s_costs s_tours]. apply z_sub_cost_ok in E4. fold (tsum (vset v nt (s_tours s))).
+      rewrite (tsum_vset_old v nt _ t0 NK Ht). fold (tsum (s_tours s)) in EC. lia. }
+  split; [constructor; assumption|]. split.
+  { unfold is_vehicle, s1. cbn [with_fields s_vehicles]. rewrite Hv. reflexivity. }
+  intros d ty'. rewrite !(nsp_len). f_equal.
+  apply NoDup_same_len.
+  - apply (uo_nodup _ _ GU d ty').
+  - apply (uo_nodup _ _ (gi_usage _ _ G) d ty').
+  - intros x. change (sp_of (s_usage s1) d ty') with (fst (usage_at s1 d ty')).
+    change (sp_of (s_usage s) d ty') with (fst (usage_at s d ty')).
+    rewrite (uo_spawned _ _ GU), (uo_spawned _ _ (gi_usage _ _ G)). unfold starts_at, s1.
+    cbn [with_fields s_vehicles s_tours]. split; intros (tx & A1 & A2 & A3).
+    + rewrite vget_vset in A2. destruct (vid_eqb x v) eqn:Q; [|eauto].
+      apply vid_eqb_eq in Q. subst x. injection A2 as <-. exists t0. rewrite <- FN. auto.
+    + destruct (vid_eqb x v) eqn:Q.
+      * apply vid_eqb_eq in Q. subst x. exists nt. rewrite vget_vset, vid_eqb_refl. rewrite FN.
+        assert (tx = t0) by congruence. subst. auto.
+      * exists tx. rewrite vget_vset, Q. auto.
+Qed.
+
+Theorem hitch_nc v n ty : SpawnRoom nw s -> vget v (s_vehicles s) = Some ty -> In ty (type_ids nw) ->
+  In n (service_nodes nw ty) -> no_crash (add_trip_for_hitch_hiking nw s n v).
+Proof.
+  intros SR Hv Ity Hn.
+  assert (Cn : In n (coverable_nodes nw)).
+  { destruct (NX_parts nw NX) as (_ & _ & _ & H). unfold nodes_coverable_b in H. apply andb_true_iff in H.
+    destruct H as [_ H]. rewrite forallb_forall in H. specialize (H ty Ity). rewrite forallb_forall in H.
+    apply mem_nid_in. apply H. exact Hn. }
+  pose proof (coverable_nondepot n Cn) as Dn.
+  assert (IV : is_vehicle s v = true) by (unfold is_vehicle; rewrite Hv; reflexivity).
+  unfold add_trip_for_hitch_hiking.
+  destruct (nget n (s_forms s)) as [f|] eqn:Ef.
+  2:{ exfalso. apply (in_keys_nget n (s_forms s)); [|exact Ef]. apply (fo_keys _ _ GF). exact Cn. }
+  cbn [unwrap_opt bind].
+  match goal with |- no_crash (if ?c then _ else _) => destruct c; [apply no_crash_err|] end.
+  destruct (add_path_single_nc v n IV Dn) as [([s1 c] & E)|E]; rewrite E; cbn [bind]; [|apply no_crash_err].
+  destruct c as [rp|]; [apply no_crash_err|].
+  destruct (add_path_single_post v n s1 None Dn E) as (G1 & IV1 & CN).
+  destruct (improve_and_recompute_total nw NF NX s1 G1 [v]) as (s' & ->).
+  - constructor; [intros []|constructor].
+  - intros x [<-|[]]. exact IV1.
+  - cbn [length]. apply (RoomN_ext nw 1 (s_usage s)); [exact CN|]. apply spawnroom_roomn. exact SR.
+  - eapply no_crash_ok. reflexivity.
+Qed.
+End S.
+End J.
+
+(** * which hitch-hiking candidates are enumerated *)
+Lemma fold_strict_gen {S V} (f : res S -> V -> res S) : (forall r v x, f r v = Ok x -> exists y, r = Ok y) ->
+  forall l r x, fold_left f l r = Ok x -> exists y, r = Ok y.
+Proof.
+  intros Hf l. induction l as [|v l IH]; intros r x H; cbn [fold_left] in H; [eauto|].
+  apply IH in H. destruct H as (y & H). eapply Hf. exact H.
+Qed.
+Lemma fold_ok_inv {S V} (f : res S -> V -> res S) (Q : S -> Prop) : (forall r v x, f r v = Ok x -> exists y, r = Ok y) ->
+  forall l, (forall s v s', In v l -> Q s -> f (Ok s) v = Ok s' -> Q s') ->
+  forall s s', Q s -> fold_left f l (Ok s) = Ok s' -> Q s'.
+Proof.
+  intros Hf l. induction l as [|v l IH]; intros H s s' Qs E; cbn [fold_left] in E; [inversion E; subst; exact Qs|].
+  destruct (fold_strict_gen f Hf l _ _ E) as (s1 & E1). rewrite E1 in E.
+  apply (IH (fun s0 v0 s0' Hin => H s0 v0 s0' (or_intror Hin)) s1 s'); [|exact E].
+  eapply H; [left; reflexivity|exact Qs|exact E1].
+Qed.
+
+Lemma candidates_hitch nw s cs n v : candidates nw s = Ok cs -> In (CHitch n v) cs ->
+  In v (vehicles_iter_all nw s) /\ exists ty, vget v (s_vehicles s) = Some ty /\ In n (service_nodes nw ty).
+Proof.
+  intros H Hin. unfold candidates in H. mon H. mon H. mon H. inversion H; subst cs; clear H.
+  apply in_app_or in Hin. destruct Hin as [Hin|Hin].
+  { exfalso. apply in_flat_map in Hin. destruct Hin as (m & _ & Hin). apply in_map_iff in Hin.
+    destruct Hin as (x & Q & _). discriminate. }
+  apply in_app_or in Hin. destruct Hin as [Hin|Hin].
+  { exfalso. revert Hin.
+    match type of E with fold_left ?f ?ll _ = _ =>
+      apply (fold_ok_inv f (fun acc => ~ In (CHitch n v) acc)) with (l := ll) (s := @nil cand) (s' := a) end; auto.
+    - intros r p x Hx. destruct r; cbn [bind] in Hx; try discriminate; eauto.
+    - intros acc p acc' _ Q Hx. cbn [bind] in Hx. mon Hx. inversion Hx; subst. intros Hin. apply in_app_or in Hin.
+      destruct Hin as [Hin|Hin]; [contradiction|]. apply in_flat_map in Hin. destruct Hin as (sg & _ & Hin).
+      apply in_map_iff in Hin. destruct Hin as (r & Q' & _). discriminate. }
+  apply in_app_or in Hin. destruct Hin as [Hin|Hin].
+  - revert Hin.
+    match type of E0 with fold_left ?f ?ll _ = _ =>
+      apply (fold_ok_inv f (fun acc => In (CHitch n v) acc ->
+               In v (vehicles_iter_all nw s) /\ exists ty, vget v (s_vehicles s) = Some ty /\ In n (service_nodes nw ty)))
+        with (l := ll) (s := @nil cand) (s' := a0) end; auto.
+    + intros r p x Hx. destruct r; cbn [bind] in Hx; try discriminate; eauto.
+    + intros acc p acc' Hp Q Hx. cbn [bind] in Hx. mon Hx. inversion Hx; subst. intros Hin. apply in_app_or in Hin.
+      destruct Hin as [Hin|Hin]; [auto|]. apply in_map_iff in Hin. destruct Hin as (m & Q' & Hm). injection Q' as -> ->.
+      split; [exact Hp|]. exists a2. split; [|exact Hm].
+      unfold vehicle_type_of in E2. destruct (vget v (s_vehicles s)); cbn in E2; inversion E2; reflexivity.
+    + intros [].
+  - exfalso. revert Hin.
+    match type of E1 with fold_left ?f ?ll _ = _ =>
+      apply (fold_ok_inv f (fun acc => ~ In (CHitch n v) acc)) with (l := ll) (s := @nil cand) (s' := a1) end; auto.
+    + intros r p x Hx. destruct r; cbn [bind] in Hx; try discriminate; eauto.
+    + intros acc p acc' _ Q Hx. cbn [bind] in Hx. mon Hx. inversion Hx; subst. intros Hin. apply in_app_or in Hin.
+      destruct Hin as [Hin|Hin]; [contradiction|]. apply in_map_iff in Hin. destruct Hin as (m & Q' & _). discriminate.
+Qed.
+
+(** * the statements of NoPanicStmts.v *)
+Section Final.
+Variable nw : network.
+Hypothesis NF : net_fine nw.
+Hypothesis NX : net_extra_b nw = true.
+
+Lemma Good_forms s : Good nw s -> FormsOK nw s.
+Proof. intros G. exact (g_forms _ _ G). Qed.
+
+(* A2, general form: the vehicles to re-home must all fit into one depot on top of what is there *)
+Theorem improve_and_recompute_total_under_room s changed :
+  Good nw s -> RoomN nw (Z.of_nat (length changed)) (s_usage s) -> NoDup changed ->
+  (forall v, In v changed -> is_vehicle s v = true) -> exists s', improve_and_recompute nw s changed = Ok s'.
+Proof. intros G R N H. apply (improve_and_recompute_total nw NF NX s (Good_I nw s G) changed N H R). Qed.
+
+(* A2 as stated (SpawnRoom), for at most one vehicle *)
+Theorem improve_and_recompute_no_crash_under_single s changed :
+  Good nw s -> SpawnRoom nw s -> NoDup changed -> (forall v, In v changed -> is_vehicle s v = true) ->
+  (length changed <= 1)%nat -> exists s', improve_and_recompute nw s changed = Ok s'.
+Proof.
+  intros G SR N H L. apply improve_and_recompute_total_under_room; auto.
+  apply (RoomN_mono nw 1); [lia|]. apply spawnroom_roomn. exact SR.
+Qed.
+
+Hypothesis DF : dists_finite_b nw = true.
+Hypothesis DH : dh_dists_finite_b nw = true.
+
+(* shared with the other swaps: remove_segment never crashes, for every segment and vehicle *)
+Theorem remove_segment_no_crash s seg v : Good nw s -> no_crash (remove_segment nw s seg v).
+Proof. intros G. apply (remove_segment_nc nw NF NX DF DH s (Good_I nw s G) (Good_forms s G)). Qed.
+
+Theorem add_path_single_no_crash s v n : Good nw s -> is_vehicle s v = true -> In n (coverable_nodes nw) ->
+  no_crash (add_path_to_vehicle_tour nw s v [n]).
+Proof.
+  intros G IV Cn. apply no_crash_of_cases.
+  apply (add_path_single_nc nw NF NX DF s (Good_I nw s G) (Good_forms s G) v n IV (coverable_nondepot nw NF n Cn)).
+Qed.
+
+Theorem apply_cand_remove_no_crash s n v : Good nw s -> no_crash (apply_cand nw s (CRemove n v)).
+Proof. intros G. cbn [apply_cand]. unfold remove_single_node. apply remove_segment_no_crash. exact G. Qed.
+
+Theorem apply_cand_hitch_no_crash s cs n v : Good nw s -> SpawnRoom nw s -> candidates nw s = Ok cs -> In (CHitch n v) cs ->
+  no_crash (apply_cand nw s (CHitch n v)).
+Proof.
+  intros G SR E Hin. cbn [apply_cand]. destruct (candidates_hitch nw s cs n v E Hin) as (_ & ty & Hv & Hn).
+  apply (hitch_nc nw NF NX DF s (Good_I nw s G) (Good_forms s G) v n ty SR Hv); [|exact Hn].
+  eapply veh_type_in; [apply Good_I; exact G|exact Hv].
+Qed.
+End Final.
+
+(* A3 for the two simple candidates, in the shape of [stmt_apply_cand_no_crash] *)
+Theorem apply_cand_simple_no_crash_under_extra : forall nw,
+  net_fine nw -> net_extra_b nw = true -> dists_finite_b nw = true -> dh_dists_finite_b nw = true ->
+  forall s cs c, Good nw s -> SpawnRoom nw s -> candidates nw s = Ok cs -> In c cs ->
+    (match c with CRemove _ _ | CHitch _ _ => True | _ => False end) -> no_crash (apply_cand nw s c).
+Proof.
+  intros nw NF NX DF DH s cs c G SR E Hin Hc. destruct c as [m v|seg p r|n v|n v]; try contradiction.
+  - eapply apply_cand_hitch_no_crash; eauto.
+  - apply apply_cand_remove_no_crash; auto.
+Qed.
+
+(* A2 in the shape of [stmt_improve_and_recompute_no_crash] *)
+Theorem improve_and_recompute_no_crash_under_room : forall nw,
+  net_fine nw -> net_extra_b nw = true ->
+  forall s changed, Good nw s -> RoomN nw (Z.of_nat (length changed)) (s_usage s) -> NoDup changed ->
+    (forall v, In v changed -> is_vehicle s v = true) -> no_crash (improve_and_recompute nw s changed).
+Proof.
+  intros nw NF NX s changed G R N H. destruct (improve_and_recompute_total_under_room nw NF NX s changed G R N H) as (s' & E).
+  eapply no_crash_ok. exact E.
+Qed.
+Theorem improve_and_recompute_no_crash_under_extra_single : forall nw,
+  net_fine nw -> net_extra_b nw = true ->
+  forall s changed, Good nw s -> SpawnRoom nw s -> NoDup changed ->
+    (forall v, In v changed -> is_vehicle s v = true) -> (length changed <= 1)%nat ->
+    no_crash (improve_and_recompute nw s changed).
+Proof.
+  intros nw NF NX s changed G R N H L.
+  destruct (improve_and_recompute_no_crash_under_single nw NF NX s changed G R N H L) as (s' & E).
+  eapply no_crash_ok. exact E.
+Qed.
+
 Theorem candidates_no_crash : forall nw, stmt_candidates_no_crash nw.
 Proof.
   intros nw NF s G. destruct (candidates_total nw NF s G) as (cs & E). eapply no_crash_ok. exact E.
 Qed.
 Print Assumptions candidates_no_crash.
+Print Assumptions remove_segment_no_crash.
+Print Assumptions add_path_single_no_crash.
+Print Assumptions apply_cand_simple_no_crash_under_extra.
+Print Assumptions improve_and_recompute_no_crash_under_room.
+Print Assumptions improve_and_recompute_no_crash_under_extra_single.
+Print Assumptions improve_and_recompute_total.
